@@ -106,6 +106,21 @@ def gen(tier, seed):
                     yield {'south': south, 'zone': z, 'e1': e1, 'n1': n1, 'brgs': [round(b % 360.0, 6) for b in brgs], 'lengths': LENGTHS}
 
 
+def gen_both(tier, seed):
+    # identical (zone, easting, northing) interpreted in the southern and then the northern hemisphere (and the reverse)
+    # inside one process
+    for z in (2, 31, 55):
+        for e1 in (1e5, 3e5, 9e5):
+            for n1 in (2.0e6, 3.3e6, 7.2e6, 8.0e6):
+                for order in ('SN', 'NS'):
+                    yield {'both': order, 'zone': z, 'e1': e1, 'n1': n1, 'brgs': [30.0, 135.0, 250.0], 'lengths': [1e4, 1e5]}
+
+
+def ev_both(case, rec):
+    for h in case['both']:
+        ev(dict(case, south=(h == 'S')), rec)
+
+
 def angdiff(a, b):
     return abs((a - b + 180.0) % 360.0 - 180.0)
 
@@ -223,7 +238,7 @@ def ev(case, rec):
     rec.sample({'case': dict(case, brgs=case['brgs'][:2])})
 
 
-SUBCHECKS = [Sub('grid_geodesic', gen, ev, chunk=1, floor=500)]
+SUBCHECKS = [Sub('grid_geodesic', gen, ev, chunk=1, floor=500), Sub('both_hemispheres', gen_both, ev_both, chunk=1, floor=100)]
 
 
 def bounds(tier, seed):
